@@ -317,6 +317,17 @@ theorem request_good (d : Db) (hn : 1 ≤ d.n) (h : Good d) (r : Req) (hr : r.Ca
     have := callTask_good d hn h (jobs parts m) .done
     simp only [Db.request, hpo, hc]
     exact ⟨this.1, this.2.1, this.2.2.1, this.2.2.2.1, fun hf => absurd hf this.2.2.2.2, fun b hb => by cases hb⟩
+  | queryPhase bodies final kind =>
+    have := callTask_good d hn h bodies final
+    simp only [Db.request, hpo]
+    refine ⟨this.1, this.2.1, ?_, ?_, fun hf => ?_, fun b hb => by cases hb⟩
+    · have h3 := this.2.2.1
+      revert h3; cases (callTask .current d bodies final).2 <;> simp [Ret.retag] <;> (try split) <;> simp
+    · have h3 := this.2.2.2.1
+      revert h3; cases (callTask .current d bodies final).2 <;> simp [Ret.retag] <;> (try split) <;> simp
+    · exfalso
+      have h3 := this.2.2.2.2
+      revert h3 hf; cases (callTask .current d bodies final).2 <;> simp [Ret.retag] <;> (try split) <;> simp
   | fnTask b =>
     have := callTask_good d hn h [b] .done
     simp only [Db.request]
@@ -383,6 +394,7 @@ theorem request_clean (d : Db) (h : Clean d) (r : Req) (hr : r.CallerOk) : Clean
   | natural parts m c =>
     have hc : c = 0 := hr
     simp only [Db.request, hpo, hc]; exact callTask_clean _ _ _ _ ⟨hpo, hfa, hfs⟩
+  | queryPhase bodies final kind => simp only [Db.request, hpo]; exact callTask_clean _ _ _ _ ⟨hpo, hfa, hfs⟩
   | fnTask b => exact callTask_clean _ _ _ _ ⟨hpo, hfa, hfs⟩
   | stats => exact callTask_clean _ _ _ _ ⟨hpo, hfa, hfs⟩
   | memTree => exact callTask_clean _ _ _ _ ⟨hpo, hfa, hfs⟩
